@@ -174,8 +174,10 @@ pub fn enforce_general_constraints<E: FieldElement>(
     );
 
     // enforces constraint on the top element being binary or not.
-    let top_binary_flag = op_flag.top_binary();
-    result[NUM_GENERAL_CONSTRAINTS - 1] = top_binary_flag * is_binary(frame.stack_item(0));
+    // for EXPACC it is the bit placed on top of the stack in the next row that must be binary
+    let top_binary_flag = op_flag.top_binary() - op_flag.expacc();
+    result[NUM_GENERAL_CONSTRAINTS - 1] = top_binary_flag * is_binary(frame.stack_item(0))
+        + op_flag.expacc() * is_binary(frame.stack_item_next(0));
 
     NUM_GENERAL_CONSTRAINTS
 }
